@@ -176,6 +176,9 @@ def run(ctx):
         raise flat_bad_tie
 
 
+REPLAY_KINDS = ('extract',)
+
+
 def replay(ctx, data):
     common.go_build(['xtool'])
     committed = open(os.path.join(FV, 'FormalVerification.lean')).read()
